@@ -286,6 +286,8 @@ def check_vmlog(chk, m, info):
     head_off, line_off, n, esz = info
     ps = paths.enumerate_paths(fn, m)
     for p in ps:
+        if paths.is_assert_fail_path(p):
+            continue
         pid = "vmlog path " + "->".join(b.lstrip("%") for b in p.blocks)
         ev = p.events
         hl = [k for k, e in enumerate(ev) if e.kind == "load" and is_head(e.ptr, info)]
@@ -595,6 +597,31 @@ def check_get_line(chk, m, info):
     chk.expect("L4", "paths of get_line", len(ps), 3)
 
 
+def _head_grid(n):
+    return sorted(set(h for h in (0, 1, 2, 3, n - 2, n - 1, n, n + 1, 2 * n - 1, 2 * n, 2 * n + 1, 1000 * n, (1 << 31) - 2, (1 << 31) - 1,
+                                  1 << 31, (1 << 32) - 1) if 0 <= h < (1 << 32)))
+
+
+def _head_grid_fact(p, info, pred):
+    """True / False if every head value (of a grid around 0, N, 2N, 2^31, 2^32) for which the path's conditions hold satisfies /
+    violates pred; 'infeasible' if none holds; None if mixed or not evaluable."""
+    n = info[2]
+    hlds = set(x for c, t, i in p.conds for x in paths.subexprs(c) if x[0] == "ld" and is_head(x[1], info))
+    if not hlds:
+        return None
+    got = set()
+    for h in _head_grid(n):
+        env = {x: h for x in hlds}
+        try:
+            if all(paths.cond_holds(cd, env) for cd in p.conds):
+                got.add(bool(pred(h)))
+        except paths.NoValue:
+            return None
+    if not got:
+        return "infeasible"
+    return got.pop() if len(got) == 1 else None
+
+
 def check_nice_clear(chk, m, info):
     head_off, line_off, n, esz = info
     fn = m.fn("vmlog_nice")
@@ -616,6 +643,14 @@ def check_nice_clear(chk, m, info):
                     fact = not taken
                 else:
                     fact = "other: %s" % fmt(cc)[:50]
+        if True:
+            # the decision written in another way (through a count / space accessor): evaluate the path's conditions as a function
+            # of head on a grid around every boundary that matters
+            r = _head_grid_fact(p, info, lambda h: h < n)
+            if r == "infeasible":
+                continue
+            if r is not None:
+                fact = r
         pid = "vmlog_nice path " + "->".join(b.lstrip("%") for b in p.blocks)
         # the effect of logging, done inline instead of through vmlog: fmt and the arguments stored into slot `head` (which is
         # head mod N below N) and head := head + 1 (no fold can be due below N)
@@ -758,11 +793,36 @@ def check_readers(chk, m, info):
     ok_all = True
     seen_iter = 0
     for p in ps:
+        if paths.is_assert_fail_path(p):
+            continue
         gl = [e for e in p.events if e.kind == "call" and e.callee == "get_line"]
         idx = [e.args[0] for e in gl]
         want = [("c", 32, i) for i in range(len(gl))]
         good = idx == want
         pr = [e for e in p.events if e.kind == "call" and e.callee == "fprintf"]
+        bound = [(c, t, i_) for c, t, i_ in p.conds if paths.contains(c, lambda x: x[0] == "ld" and is_head(x[1], info))]
+        if bound:
+            # a counted walk: for (i = 0; i < <number of lines held>; i++) print get_line(i).  Each line fetched is printed, and for
+            # every head (on the grid) for which this complete path is the one taken, the number of lines printed is the number
+            # get_line has (L4: min(head, N))
+            good = good and len(pr) == len(gl)
+            for i, e in enumerate(pr):
+                good = good and e.args[0] == ("arg", 0) and check_format_args(e.args[1:], gl[i].res, nargs, 0)
+            hlds = set(x for c, t, i_ in bound for x in paths.subexprs(c) if x[0] == "ld" and is_head(x[1], info))
+            feasible = []
+            for h in _head_grid(n):
+                try:
+                    if all(paths.cond_holds(cd, {x: h for x in hlds}) for cd in bound):
+                        feasible.append(h)
+                except paths.NoValue:
+                    good = False
+            if not feasible and good:
+                continue
+            good = good and all(len(pr) == min(h, n) for h in feasible)
+            seen_iter = max(seen_iter, len(pr))
+            if not good:
+                ok_all = False
+            continue
         # each printed line is the one just fetched; loop ends at the first NULL
         good = good and len(pr) == len(gl) - 1
         for i, e in enumerate(pr):
@@ -779,7 +839,7 @@ def check_readers(chk, m, info):
                         "range walks over log.line: this enumeration idiom is not modelled", fd.loc)
     else:
         chk.ob("L6.dump", "mlog_dump", ok_all and seen_iter >= 2,
-               "mlog_dump prints get_line(0), get_line(1), ... in order with fmt and arg[0..%d], stopping at the first NULL "
+               "mlog_dump prints get_line(0), get_line(1), ... in order with fmt and arg[0..%d], stopping at the first NULL (or at the number of lines held) "
                "(checked on all paths with up to 2 loop iterations)" % (nargs - 1), fd.loc, fd.name)
 
 
